@@ -466,4 +466,428 @@ theorem ppRedTrinomial_ok {w : Nat} (a : List Nat) (m k : Nat) (hw : 0 < w) (ha 
   rw [List.length_take, hN]
   omega
 
+/-! ## §5 ppRedPentanomial -/
+
+theorem xor4_rev (a b c d : Nat) : a ^^^ (b ^^^ (c ^^^ d)) = d ^^^ (c ^^^ (b ^^^ a)) := by
+  apply Nat.eq_of_testBit_eq
+  intro i
+  simp only [Nat.testBit_xor]
+  cases a.testBit i <;> cases b.testBit i <;> cases c.testBit i <;> cases d.testBit i <;> rfl
+
+theorem xor5_rot (A x0 x1 x2 x3 z : Nat) :
+    ((((A ^^^ x0) ^^^ x1) ^^^ x2) ^^^ x3) ^^^ z = A ^^^ (z ^^^ (x0 ^^^ (x1 ^^^ (x2 ^^^ x3)))) := by
+  apply Nat.eq_of_testBit_eq
+  intro i
+  simp only [Nat.testBit_xor]
+  cases A.testBit i <;> cases x0.testBit i <;> cases x1.testBit i <;> cases x2.testBit i <;>
+    cases x3.testBit i <;> cases z.testBit i <;> rfl
+
+theorem pentaP_xor {m k l l1 : Nat} (h1 : 0 < l1) (h2 : l1 < l) (h3 : l < k) (h4 : k < m) :
+    2 ^ m + 2 ^ k + 2 ^ l + 2 ^ l1 + 1
+      = (1 <<< m) ^^^ ((1 <<< k) ^^^ ((1 <<< l) ^^^ ((1 <<< l1) ^^^ 1)))
+    ∧ (2 ^ m + 2 ^ k + 2 ^ l + 2 ^ l1 + 1).log2 = m := by
+  have p1 : 1 < 2 ^ l1 := Nat.one_lt_two_pow (by omega)
+  have q2 : 2 ^ (l1 + 1) ≤ 2 ^ l := Nat.pow_le_pow_right (by omega) (by omega)
+  have q3 : 2 ^ (l + 1) ≤ 2 ^ k := Nat.pow_le_pow_right (by omega) (by omega)
+  have q4 : 2 ^ (k + 1) ≤ 2 ^ m := Nat.pow_le_pow_right (by omega) (by omega)
+  rw [Nat.pow_succ] at q2 q3 q4
+  have e1 : 2 ^ l1 + 1 = (1 <<< l1) ^^^ 1 := by
+    have := add_shl_eq_xor (a := 1) p1; rwa [Nat.mul_one] at this
+  have e2 : 2 ^ l + (2 ^ l1 + 1) = (1 <<< l) ^^^ (2 ^ l1 + 1) := by
+    have := add_shl_eq_xor (a := 1) (b := 2 ^ l1 + 1) (i := l) (by omega); rwa [Nat.mul_one] at this
+  have e3 : 2 ^ k + (2 ^ l + (2 ^ l1 + 1)) = (1 <<< k) ^^^ (2 ^ l + (2 ^ l1 + 1)) := by
+    have := add_shl_eq_xor (a := 1) (b := 2 ^ l + (2 ^ l1 + 1)) (i := k) (by omega)
+    rwa [Nat.mul_one] at this
+  have e4 : 2 ^ m + (2 ^ k + (2 ^ l + (2 ^ l1 + 1)))
+      = (1 <<< m) ^^^ (2 ^ k + (2 ^ l + (2 ^ l1 + 1))) := by
+    have := add_shl_eq_xor (a := 1) (b := 2 ^ k + (2 ^ l + (2 ^ l1 + 1))) (i := m) (by omega)
+    rwa [Nat.mul_one] at this
+  refine ⟨?_, ?_⟩
+  · rw [← e1, ← e2, ← e3, ← e4]; omega
+  · apply (Nat.log2_eq_iff (by omega)).2
+    rw [Nat.pow_succ]; omega
+
+theorem penta_fold {m k l l1 : Nat} (h1 : 0 < l1) (h2 : l1 < l) (h3 : l < k) (h4 : k < m) (X : Nat) :
+    X <<< m ^^^ (X ^^^ (X <<< l1 ^^^ (X <<< l ^^^ X <<< k)))
+      = clmul X (2 ^ m + 2 ^ k + 2 ^ l + 2 ^ l1 + 1) := by
+  rw [(pentaP_xor h1 h2 h3 h4).1, clmul_xor, clmul_xor, clmul_xor, clmul_xor, Nat.one_shiftLeft,
+    Nat.one_shiftLeft, Nat.one_shiftLeft, Nat.one_shiftLeft, clmul_two_pow, clmul_two_pow,
+    clmul_two_pow, clmul_two_pow, clmul_one]
+  congr 1
+  exact xor4_rev _ _ _ _
+
+theorem expo_eq {w mw mb tw tb t e c : Nat} (hmw : mw = tw + e)
+    (ht : w * tw + tb + t = w * mw + mb) (hmb : mb ≤ w) (htb : tb < w) :
+    w * (e + c) + (w - tb) = w * c + (w - mb) + t := by
+  rw [hmw, Nat.mul_add] at ht
+  rw [Nat.mul_add]
+  omega
+
+theorem pentaBody_val {w : Nat} (a : List Nat) (mb mw l1b l1w lb lw kb kw l1 l k c : Nat) (h : Wf w a)
+    (hl1w : l1w ≤ mw) (hlw : lw ≤ mw) (hkw : kw ≤ mw)
+    (hmb : mb < w) (hl1b : l1b < w) (hlb : lb < w) (hkb : kb < w)
+    (hl1 : w * l1w + l1b + l1 = w * mw + mb) (hl : w * lw + lb + l = w * mw + mb)
+    (hk : w * kw + kb + k = w * mw + mb) (hn : mw + c + 1 < a.length) :
+    Wf w (ppRedPentaBody w mb mw l1b l1w lb lw kb kw (mw + c + 1) a)
+    ∧ (ppRedPentaBody w mb mw l1b l1w lb lw kb kw (mw + c + 1) a).length = a.length
+    ∧ val w (ppRedPentaBody w mb mw l1b l1w lb lw kb kw (mw + c + 1) a)
+        = val w a ^^^ ((a.getD (mw + c + 1) 0) <<< (w * c + (w - mb))
+            ^^^ ((a.getD (mw + c + 1) 0) <<< (w * c + (w - mb) + l1)
+            ^^^ ((a.getD (mw + c + 1) 0) <<< (w * c + (w - mb) + l)
+            ^^^ (a.getD (mw + c + 1) 0) <<< (w * c + (w - mb) + k)))) := by
+  have heq : ppRedPentaBody w mb mw l1b l1w lb lw kb kw (mw + c + 1) a
+      = pairXor w (pairXor w (pairXor w (pairXor w a c mb (a.getD (mw + c + 1) 0))
+          (mw - l1w + c) l1b (a.getD (mw + c + 1) 0)) (mw - lw + c) lb (a.getD (mw + c + 1) 0))
+          (mw - kw + c) kb (a.getD (mw + c + 1) 0) := by
+    unfold ppRedPentaBody pairXor
+    have e2 : mw + c + 1 - mw = c + 1 := by omega
+    have e4 : mw + c + 1 - l1w = mw - l1w + c + 1 := by omega
+    have e6 : mw + c + 1 - lw = mw - lw + c + 1 := by omega
+    have e8 : mw + c + 1 - kw = mw - kw + c + 1 := by omega
+    simp only [e2, e4, e6, e8, Nat.add_sub_cancel]
+  rw [heq]
+  have hhi := getD_lt h (mw + c + 1)
+  obtain ⟨f1, f2, f3⟩ := val_pairXor a h c mb _ (by omega) hhi hmb
+  obtain ⟨g1, g2, g3⟩ := val_pairXor _ f1 (mw - l1w + c) l1b _ (by omega) hhi hl1b
+  obtain ⟨p1, p2, p3⟩ := val_pairXor _ g1 (mw - lw + c) lb _ (by omega) hhi hlb
+  obtain ⟨q1, q2, q3⟩ := val_pairXor _ p1 (mw - kw + c) kb _ (by omega) hhi hkb
+  refine ⟨q1, by omega, ?_⟩
+  rw [q3, p3, g3, f3,
+    expo_eq (e := mw - l1w) (c := c) (by omega) hl1 (Nat.le_of_lt hmb) hl1b,
+    expo_eq (e := mw - lw) (c := c) (by omega) hl (Nat.le_of_lt hmb) hlb,
+    expo_eq (e := mw - kw) (c := c) (by omega) hk (Nat.le_of_lt hmb) hkb]
+  simp only [Nat.xor_assoc]
+
+theorem pentaStep {w : Nat} (a : List Nat) (mb mw l1b l1w lb lw kb kw l1 l k c : Nat) (h : Wf w a)
+    (hl1w : l1w ≤ mw) (hlw : lw ≤ mw) (hkw : kw ≤ mw)
+    (hmb : mb < w) (hl1b : l1b < w) (hlb : lb < w) (hkb : kb < w)
+    (hl1 : w * l1w + l1b + l1 = w * mw + mb) (hl : w * lw + lb + l = w * mw + mb)
+    (hk : w * kw + kb + k = w * mw + mb) (h1 : 0 < l1) (h2 : l1 < l) (h3 : l < k)
+    (hwk : w + k ≤ w * mw + mb) (hn : mw + c + 1 < a.length) :
+    Cong (2 ^ (w * mw + mb) + 2 ^ k + 2 ^ l + 2 ^ l1 + 1)
+      (val w ((ppRedPentaBody w mb mw l1b l1w lb lw kb kw (mw + c + 1) a).take (mw + c + 1)))
+      (val w (a.take (mw + c + 1 + 1))) := by
+  obtain ⟨g1, g2, g3⟩ := pentaBody_val a mb mw l1b l1w lb lw kb kw l1 l k c h hl1w hlw hkw hmb hl1b
+    hlb hkb hl1 hl hk hn
+  have hhi := getD_lt h (mw + c + 1)
+  have hwn : w * (mw + c + 1) = w * mw + w * c + w := by rw [Nat.mul_add, Nat.mul_add, Nat.mul_one]
+  have hb : ∀ t, t ≤ k → (a.getD (mw + c + 1) 0) <<< (w * c + (w - mb) + t) < 2 ^ (w * (mw + c + 1)) :=
+    fun t ht => Nat.lt_of_lt_of_le (shl_lt hhi _) (Nat.pow_le_pow_right (by omega) (by omega))
+  have hD : (a.getD (mw + c + 1) 0) <<< (w * c + (w - mb))
+      ^^^ ((a.getD (mw + c + 1) 0) <<< (w * c + (w - mb) + l1)
+      ^^^ ((a.getD (mw + c + 1) 0) <<< (w * c + (w - mb) + l)
+      ^^^ (a.getD (mw + c + 1) 0) <<< (w * c + (w - mb) + k))) < 2 ^ (w * (mw + c + 1)) := by
+    apply Nat.xor_lt_two_pow (hb 0 (by omega))
+    apply Nat.xor_lt_two_pow (hb l1 (by omega))
+    exact Nat.xor_lt_two_pow (hb l (by omega)) (hb k (by omega))
+  rw [val_take_xor h g1 g2 (mw + c + 1) (by omega) hD g3, val_take_succ h (mw + c + 1) hn]
+  refine ⟨(a.getD (mw + c + 1) 0) <<< (w * c + (w - mb)), ?_⟩
+  rw [← penta_fold h1 h2 h3 (by omega), ← Nat.shiftLeft_add, ← Nat.shiftLeft_add, ← Nat.shiftLeft_add,
+    ← Nat.shiftLeft_add]
+  have e1 : w * c + (w - mb) + (w * mw + mb) = w * (mw + c + 1) := by omega
+  rw [e1]
+  exact xor_cancel_mid _ _ _
+
+theorem pentaLoop {w : Nat} (mb mw l1b l1w lb lw kb kw l1 l k V0 L : Nat)
+    (hl1w : l1w ≤ mw) (hlw : lw ≤ mw) (hkw : kw ≤ mw)
+    (hmb : mb < w) (hl1b : l1b < w) (hlb : lb < w) (hkb : kb < w)
+    (hl1 : w * l1w + l1b + l1 = w * mw + mb) (hl : w * lw + lb + l = w * mw + mb)
+    (hk : w * kw + kb + k = w * mw + mb) (h1 : 0 < l1) (h2 : l1 < l) (h3 : l < k)
+    (hwk : w + k ≤ w * mw + mb) :
+    ∀ (c : Nat) (a : List Nat), Wf w a → a.length = L → mw + c + 1 ≤ L →
+      Cong (2 ^ (w * mw + mb) + 2 ^ k + 2 ^ l + 2 ^ l1 + 1) (val w (a.take (mw + c + 1))) V0 →
+      Wf w (redLoop (ppRedPentaBody w mb mw l1b l1w lb lw kb kw) mw c a)
+      ∧ (redLoop (ppRedPentaBody w mb mw l1b l1w lb lw kb kw) mw c a).length = L
+      ∧ Cong (2 ^ (w * mw + mb) + 2 ^ k + 2 ^ l + 2 ^ l1 + 1)
+          (val w ((redLoop (ppRedPentaBody w mb mw l1b l1w lb lw kb kw) mw c a).take (mw + 1))) V0 := by
+  intro c
+  induction c with
+  | zero => intro a h hl _ hc; exact ⟨h, hl, hc⟩
+  | succ c ih =>
+    intro a h hL hle hc
+    have hn : mw + c + 1 < a.length := by omega
+    obtain ⟨g1, g2, _⟩ := pentaBody_val a mb mw l1b l1w lb lw kb kw l1 l k c h hl1w hlw hkw hmb hl1b
+      hlb hkb hl1 hl hk hn
+    have hs := pentaStep a mb mw l1b l1w lb lw kb kw l1 l k c h hl1w hlw hkw hmb hl1b hlb hkb hl1 hl hk
+      h1 h2 h3 hwk hn
+    rw [redLoop]
+    exact ih _ g1 (by omega) (by omega) (cong_trans hs hc)
+
+/-- the tail of ppRedPentanomial / gf2RedPentanomial (n == mw); mb = 0 allowed -/
+theorem pentaTail {w : Nat} (a : List Nat) (h : Wf w a) (mb mw l1b l1w lb lw kb kw l1 l k : Nat)
+    (hmw1 : mw < a.length) (hl1w : l1w ≤ mw) (hlw : lw ≤ mw) (hkw : kw ≤ mw)
+    (hmb : mb < w) (hl1b : l1b < w) (hlb : lb < w) (hkb : kb < w)
+    (hl1 : w * l1w + l1b + l1 = w * mw + mb) (hl : w * lw + lb + l = w * mw + mb)
+    (hk : w * kw + kb + k = w * mw + mb) (h1 : 0 < l1) (h2 : l1 < l) (h3 : l < k)
+    (hwk : w + k ≤ w * mw + mb) :
+    Wf w (ppRedPentaTail w mb mw l1b l1w lb lw kb kw a)
+    ∧ (ppRedPentaTail w mb mw l1b l1w lb lw kb kw a).length = a.length
+    ∧ Cong (2 ^ (w * mw + mb) + 2 ^ k + 2 ^ l + 2 ^ l1 + 1)
+        (val w ((ppRedPentaTail w mb mw l1b l1w lb lw kb kw a).take (mw + 1)))
+        (val w (a.take (mw + 1)))
+    ∧ val w ((ppRedPentaTail w mb mw l1b l1w lb lw kb kw a).take (mw + 1)) < 2 ^ (w * mw + mb) := by
+  have heq : ppRedPentaTail w mb mw l1b l1w lb lw kb kw a
+      = xorAt (tailXor w (tailXor w (tailXor w (xorAt a 0 (wshr (a.getD mw 0) mb)) mw l1w l1b
+          (wshl w (wshr (a.getD mw 0) mb) mb)) mw lw lb (wshl w (wshr (a.getD mw 0) mb) mb)) mw kw kb
+          (wshl w (wshr (a.getD mw 0) mb) mb)) mw (wshl w (wshr (a.getD mw 0) mb) mb) := rfl
+  rw [heq]
+  have hword := getD_lt h mw
+  have hhi : wshr (a.getD mw 0) mb < 2 ^ (w - mb) := by
+    apply Nat.div_lt_of_lt_mul
+    rw [← Nat.pow_add, Nat.add_sub_cancel' (Nat.le_of_lt hmb)]; exact hword
+  have hhiw : wshr (a.getD mw 0) mb < 2 ^ w := Nat.lt_of_le_of_lt (Nat.div_le_self _ _) hword
+  obtain ⟨hex, hlt⟩ := wshl_exact (Nat.le_of_lt hmb) hhi
+  obtain ⟨f1, f2, f3⟩ := val_xorAt a 0 _ h (by omega) hhiw
+  obtain ⟨g1, g2, g3⟩ := val_tailXor _ f1 mw mb l1w l1b _ (by omega) hmb hl1b hl1w (by omega) hhi
+  obtain ⟨p1, p2, p3⟩ := val_tailXor _ g1 mw mb lw lb _ (by omega) hmb hlb hlw (by omega) hhi
+  obtain ⟨q1, q2, q3⟩ := val_tailXor _ p1 mw mb kw kb _ (by omega) hmb hkb hkw (by omega) hhi
+  obtain ⟨r1, r2, r3⟩ := val_xorAt _ mw (wshl w (wshr (a.getD mw 0) mb) mb) q1 (by omega)
+    (by rw [hex]; exact hlt)
+  refine ⟨r1, by omega, ?_⟩
+  have hval : val w (xorAt (tailXor w (tailXor w (tailXor w (xorAt a 0 (wshr (a.getD mw 0) mb)) mw l1w l1b
+          (wshl w (wshr (a.getD mw 0) mb) mb)) mw lw lb (wshl w (wshr (a.getD mw 0) mb) mb)) mw kw kb
+          (wshl w (wshr (a.getD mw 0) mb) mb)) mw (wshl w (wshr (a.getD mw 0) mb) mb))
+      = val w a ^^^ ((wshr (a.getD mw 0) mb) <<< (w * mw + mb)
+          ^^^ (wshr (a.getD mw 0) mb ^^^ ((wshr (a.getD mw 0) mb) <<< l1
+          ^^^ ((wshr (a.getD mw 0) mb) <<< l ^^^ (wshr (a.getD mw 0) mb) <<< k)))) := by
+    rw [r3, q3, p3, g3, f3, hex, Nat.mul_zero, Nat.shiftLeft_zero, ← Nat.shiftLeft_eq,
+      ← Nat.shiftLeft_add,
+      show w * mw + mb - (w * l1w + l1b) = l1 by omega,
+      show w * mw + mb - (w * lw + lb) = l by omega,
+      show w * mw + mb - (w * kw + kb) = k by omega, Nat.add_comm mb]
+    exact xor5_rot _ _ _ _ _ _
+  have hwn : w * (mw + 1) = w * mw + w := by rw [Nat.mul_add, Nat.mul_one]
+  have hb : ∀ t, t ≤ k → (wshr (a.getD mw 0) mb) <<< t < 2 ^ (w * mw + mb) :=
+    fun t ht => Nat.lt_of_lt_of_le (shl_lt hhi _) (Nat.pow_le_pow_right (by omega) (by omega))
+  have hb0 : wshr (a.getD mw 0) mb < 2 ^ (w * mw + mb) :=
+    Nat.lt_of_lt_of_le hhi (Nat.pow_le_pow_right (by omega) (by omega))
+  have hsmall : wshr (a.getD mw 0) mb ^^^ ((wshr (a.getD mw 0) mb) <<< l1
+      ^^^ ((wshr (a.getD mw 0) mb) <<< l ^^^ (wshr (a.getD mw 0) mb) <<< k)) < 2 ^ (w * mw + mb) := by
+    apply Nat.xor_lt_two_pow hb0
+    apply Nat.xor_lt_two_pow (hb l1 (by omega))
+    exact Nat.xor_lt_two_pow (hb l (by omega)) (hb k (by omega))
+  have hD : (wshr (a.getD mw 0) mb) <<< (w * mw + mb)
+      ^^^ (wshr (a.getD mw 0) mb ^^^ ((wshr (a.getD mw 0) mb) <<< l1
+      ^^^ ((wshr (a.getD mw 0) mb) <<< l ^^^ (wshr (a.getD mw 0) mb) <<< k))) < 2 ^ (w * (mw + 1)) := by
+    apply Nat.xor_lt_two_pow
+    · exact Nat.lt_of_lt_of_le (shl_lt hhi _) (Nat.pow_le_pow_right (by omega) (by omega))
+    · exact Nat.lt_of_lt_of_le hsmall (Nat.pow_le_pow_right (by omega) (by omega))
+  have htake := val_take_xor h r1 (by omega) (mw + 1) (by omega) hD hval
+  rw [htake]
+  constructor
+  · refine ⟨wshr (a.getD mw 0) mb, ?_⟩
+    rw [← penta_fold h1 h2 h3 (by omega), Nat.xor_comm (val w (List.take (mw + 1) a)), Nat.xor_assoc,
+      Nat.xor_self, Nat.xor_zero]
+  · have hT0 : val w (a.take mw) < 2 ^ (w * mw) := by
+      have := val_lt (Wf_take h mw)
+      rwa [List.length_take, Nat.min_eq_left (by omega)] at this
+    have hTdiv : val w (a.take (mw + 1)) / 2 ^ (w * mw + mb) = wshr (a.getD mw 0) mb := by
+      rw [val_take_succ_add mw hmw1, Nat.pow_add, ← Nat.div_div_eq_div_mul,
+        Nat.add_mul_div_left _ _ (Nat.two_pow_pos _), Nat.div_eq_of_lt hT0, Nat.zero_add]
+    have hT : val w (a.take (mw + 1)) = (wshr (a.getD mw 0) mb) <<< (w * mw + mb)
+        ^^^ val w (a.take (mw + 1)) % 2 ^ (w * mw + mb) := by
+      rw [← add_shl_eq_xor (Nat.mod_lt _ (Nat.two_pow_pos _)), ← hTdiv, Nat.div_add_mod]
+    rw [hT, xor4_swap, Nat.xor_self, Nat.zero_xor]
+    exact Nat.xor_lt_two_pow (Nat.mod_lt _ (Nat.two_pow_pos _)) hsmall
+
+theorem wOfB_bounds {w : Nat} (hw : 0 < w) (m : Nat) :
+    m / w ≤ wOfB w m ∧ wOfB w m ≤ m / w + 1 ∧ m ≤ w * wOfB w m := by
+  have hm := Nat.div_add_mod m w
+  have hlt := Nat.mod_lt m hw
+  by_cases h0 : m % w = 0
+  · have e : wOfB w m = m / w := by
+      unfold wOfB
+      have e' : m + w - 1 = w * (m / w) + (w - 1) := by omega
+      have e2 : (w - 1) / w = 0 := Nat.div_eq_of_lt (by omega)
+      rw [e', Nat.mul_add_div hw, e2, Nat.add_zero]
+    rw [e]; omega
+  · rw [wOfB_of_mod_ne hw h0, Nat.mul_add, Nat.mul_one]; omega
+
+theorem ppRedPentanomial_ok {w : Nat} (a : List Nat) (m k l l1 : Nat) (hw : 0 < w) (ha : Wf w a)
+    (hlen : a.length = 2 * wOfB w m) (h1 : 0 < l1) (h2 : l1 < l) (h3 : l < k) (hkw : k < w)
+    (hmk : w ≤ m - k) :
+    val w (ppRedPentanomial w a m k l l1) = pmod (val w a) (2 ^ m + 2 ^ k + 2 ^ l + 2 ^ l1 + 1)
+    ∧ val w (ppRedPentanomial w a m k l l1) < 2 ^ m
+    ∧ Wf w (ppRedPentanomial w a m k l l1) ∧ (ppRedPentanomial w a m k l l1).length = wOfB w m := by
+  have hm := Nat.div_add_mod m w
+  have hmbw := Nat.mod_lt m hw
+  have d1 := Nat.div_add_mod (m - l1) w
+  have d2 := Nat.div_add_mod (m - l) w
+  have d3 := Nat.div_add_mod (m - k) w
+  have b1 := Nat.mod_lt (m - l1) hw
+  have b2 := Nat.mod_lt (m - l) hw
+  have b3 := Nat.mod_lt (m - k) hw
+  have le1 : (m - l1) / w ≤ m / w := Nat.div_le_div_right (Nat.sub_le m l1)
+  have le2 : (m - l) / w ≤ m / w := Nat.div_le_div_right (Nat.sub_le m l)
+  have le3 : (m - k) / w ≤ m / w := Nat.div_le_div_right (Nat.sub_le m k)
+  have hmw1 : 1 ≤ m / w := (Nat.le_div_iff_mul_le hw).2 (by omega)
+  obtain ⟨n1, n2, n3⟩ := wOfB_bounds hw m
+  have hP := pentaP_xor h1 h2 h3 (by omega : k < m)
+  have hP0 : 2 ^ m + 2 ^ k + 2 ^ l + 2 ^ l1 + 1 ≠ 0 := Nat.succ_ne_zero _
+  have hL : m / w + (2 * wOfB w m - 1 - m / w) + 1 = a.length := by omega
+  obtain ⟨l1', l2', l3'⟩ := pentaLoop (m % w) (m / w) ((m - l1) % w) ((m - l1) / w) ((m - l) % w)
+    ((m - l) / w) ((m - k) % w) ((m - k) / w) l1 l k (val w a) a.length le1 le2 le3 hmbw b1 b2 b3
+    (by omega) (by omega) (by omega) h1 h2 h3 (by omega) (2 * wOfB w m - 1 - m / w) a ha rfl (by omega)
+    (by rw [hL, List.take_length]; exact cong_refl _ _)
+  obtain ⟨t1, t2, t3, t4⟩ := pentaTail _ l1' (m % w) (m / w) ((m - l1) % w) ((m - l1) / w)
+    ((m - l) % w) ((m - l) / w) ((m - k) % w) ((m - k) / w) l1 l k (by omega) le1 le2 le3 hmbw b1 b2 b3
+    (by omega) (by omega) (by omega) h1 h2 h3 (by omega)
+  rw [hm] at t3 t4 l3'
+  have hc := cong_trans t3 l3'
+  -- the result: the first W_OF_B(m) words
+  have hres : val w (ppRedPentanomial w a m k l l1)
+      = val w ((ppRedPentaTail w (m % w) (m / w) ((m - l1) % w) ((m - l1) / w) ((m - l) % w)
+          ((m - l) / w) ((m - k) % w) ((m - k) / w)
+          (redLoop (ppRedPentaBody w (m % w) (m / w) ((m - l1) % w) ((m - l1) / w) ((m - l) % w)
+            ((m - l) / w) ((m - k) % w) ((m - k) / w)) (m / w) (2 * wOfB w m - 1 - m / w) a)).take
+          (m / w + 1)) := by
+    have hunf : ppRedPentanomial w a m k l l1
+        = (ppRedPentaTail w (m % w) (m / w) ((m - l1) % w) ((m - l1) / w) ((m - l) % w)
+          ((m - l) / w) ((m - k) % w) ((m - k) / w)
+          (redLoop (ppRedPentaBody w (m % w) (m / w) ((m - l1) % w) ((m - l1) / w) ((m - l) % w)
+            ((m - l) / w) ((m - k) % w) ((m - k) / w)) (m / w) (2 * wOfB w m - 1 - m / w) a)).take
+          (wOfB w m) := rfl
+    rw [hunf, val_take t1 _ (by omega), val_take t1 (m / w + 1) (by omega)]
+    have hdvd : 2 ^ (w * wOfB w m) ∣ 2 ^ (w * (m / w + 1)) :=
+      Nat.pow_dvd_pow 2 (Nat.mul_le_mul_left w n2)
+    have hlt : val w (ppRedPentaTail w (m % w) (m / w) ((m - l1) % w) ((m - l1) / w) ((m - l) % w)
+          ((m - l) / w) ((m - k) % w) ((m - k) / w)
+          (redLoop (ppRedPentaBody w (m % w) (m / w) ((m - l1) % w) ((m - l1) / w) ((m - l) % w)
+            ((m - l) / w) ((m - k) % w) ((m - k) / w)) (m / w) (2 * wOfB w m - 1 - m / w) a))
+          % 2 ^ (w * (m / w + 1)) < 2 ^ (w * wOfB w m) := by
+      rw [← val_take t1 (m / w + 1) (by omega)]
+      exact Nat.lt_of_lt_of_le t4 (Nat.pow_le_pow_right (by omega) n3)
+    rw [← Nat.mod_mod_of_dvd _ hdvd, Nat.mod_eq_of_lt hlt]
+  have hpm := pmod_cong hP0 hc
+  rw [pmod_of_lt hP0 (by rw [hP.2]; exact t4)] at hpm
+  rw [hres]
+  refine ⟨hpm, t4, ?_, ?_⟩
+  · exact Wf_take t1 _
+  · show (List.take (wOfB w m) _).length = wOfB w m
+    rw [List.length_take]
+    have : (ppRedPentanomialArr w a m k l l1).length = a.length := t2.trans l2'
+    omega
+
+/-! ## §6 ppRedBelt -/
+
+theorem shift_split {w v j : Nat} (d : Nat) (hj : j < w) :
+    (wshl w v j) <<< (w * d) ^^^ (wshr v (w - j)) <<< (w * (d + 1)) = v <<< (w * d + j) := by
+  have hpow : 2 ^ w = 2 ^ j * 2 ^ (w - j) := by rw [← Nat.pow_add]; congr 1; omega
+  have hdiv : v * 2 ^ j / 2 ^ w = v / 2 ^ (w - j) := by
+    rw [hpow, ← Nat.div_div_eq_div_mul, Nat.mul_div_cancel _ (Nat.two_pow_pos _)]
+  have hX : v * 2 ^ j = (v / 2 ^ (w - j)) <<< w ^^^ (v * 2 ^ j) % 2 ^ w := by
+    rw [← add_shl_eq_xor (Nat.mod_lt _ (Nat.two_pow_pos w)), ← hdiv, Nat.div_add_mod]
+  rw [Nat.add_comm (w * d), Nat.shiftLeft_add, Nat.shiftLeft_eq v, hX, Nat.shiftLeft_xor_distrib,
+    ← Nat.shiftLeft_add, Nat.mul_succ, Nat.add_comm w, Nat.xor_comm]
+
+theorem getD_xorAt_ne (a : List Nat) (i n x : Nat) (h : i ≠ n) :
+    (xorAt a i x).getD n 0 = a.getD n 0 := by
+  unfold xorAt
+  simp [List.getD_eq_getElem?_getD, List.getElem?_set_ne h]
+
+theorem xor7 (x0 a1 a2 a7 b1 b2 b7 : Nat) :
+    (x0 ^^^ a1 ^^^ a2 ^^^ a7) ^^^ (b1 ^^^ b2 ^^^ b7)
+      = x0 ^^^ ((a1 ^^^ b1) ^^^ ((a2 ^^^ b2) ^^^ (a7 ^^^ b7))) := by
+  apply Nat.eq_of_testBit_eq
+  intro i
+  simp only [Nat.testBit_xor]
+  cases x0.testBit i <;> cases a1.testBit i <;> cases a2.testBit i <;> cases a7.testBit i <;>
+    cases b1.testBit i <;> cases b2.testBit i <;> cases b7.testBit i <;> rfl
+
+theorem beltBody_val {w : Nat} (a : List Nat) (mw d : Nat) (h : Wf w a) (h7 : 7 < w) (hmw : 1 ≤ mw)
+    (hn : mw + d < a.length) :
+    Wf w (ppRedBeltBody w mw (mw + d) a)
+    ∧ (ppRedBeltBody w mw (mw + d) a).length = a.length
+    ∧ val w (ppRedBeltBody w mw (mw + d) a)
+        = val w a ^^^ ((a.getD (mw + d) 0) <<< (w * d)
+            ^^^ ((a.getD (mw + d) 0) <<< (w * d + 1)
+            ^^^ ((a.getD (mw + d) 0) <<< (w * d + 2) ^^^ (a.getD (mw + d) 0) <<< (w * d + 7)))) := by
+  have hv := getD_lt h (mw + d)
+  have hs : ∀ j, wshl w (a.getD (mw + d) 0) j < 2 ^ w := fun j => Nat.mod_lt _ (Nat.two_pow_pos w)
+  have hr : ∀ j, wshr (a.getD (mw + d) 0) j < 2 ^ w :=
+    fun j => Nat.lt_of_le_of_lt (Nat.div_le_self _ _) hv
+  have e1 : mw + d - mw = d := by omega
+  unfold ppRedBeltBody
+  simp only [e1]
+  rw [getD_xorAt_ne a d (mw + d) _ (by omega)]
+  obtain ⟨f1, f2, f3⟩ := val_xorAt a d (a.getD (mw + d) 0 ^^^ wshl w (a.getD (mw + d) 0) 1
+      ^^^ wshl w (a.getD (mw + d) 0) 2 ^^^ wshl w (a.getD (mw + d) 0) 7) h (by omega)
+    (Nat.xor_lt_two_pow (Nat.xor_lt_two_pow (Nat.xor_lt_two_pow hv (hs 1)) (hs 2)) (hs 7))
+  obtain ⟨g1, g2, g3⟩ := val_xorAt _ (d + 1) (wshr (a.getD (mw + d) 0) (w - 1)
+      ^^^ wshr (a.getD (mw + d) 0) (w - 2) ^^^ wshr (a.getD (mw + d) 0) (w - 7)) f1 (by omega)
+    (Nat.xor_lt_two_pow (Nat.xor_lt_two_pow (hr _) (hr _)) (hr _))
+  refine ⟨g1, by omega, ?_⟩
+  rw [g3, f3, Nat.xor_assoc]
+  congr 1
+  rw [← shift_split (v := a.getD (mw + d) 0) d (by omega : 1 < w),
+    ← shift_split (v := a.getD (mw + d) 0) d (by omega : 2 < w),
+    ← shift_split (v := a.getD (mw + d) 0) d h7]
+  simp only [Nat.shiftLeft_xor_distrib]
+  exact xor7 _ _ _ _ _ _ _
+
+theorem beltStep {w : Nat} (a : List Nat) (mw d : Nat) (h : Wf w a) (h7 : 7 < w) (hmw : 2 ≤ mw)
+    (hw : w * mw = 128) (hn : mw + d < a.length) :
+    Cong (2 ^ 128 + 2 ^ 7 + 2 ^ 2 + 2 ^ 1 + 1)
+      (val w ((ppRedBeltBody w mw (mw + d) a).take (mw + d)))
+      (val w (a.take (mw + d + 1))) := by
+  obtain ⟨g1, g2, g3⟩ := beltBody_val a mw d h h7 (by omega) hn
+  have hv := getD_lt h (mw + d)
+  have hwn : w * (mw + d) = 128 + w * d := by rw [Nat.mul_add, hw]
+  have hw2 : w * 2 ≤ w * mw := Nat.mul_le_mul_left w hmw
+  have hb : ∀ t, t ≤ 7 → (a.getD (mw + d) 0) <<< (w * d + t) < 2 ^ (w * (mw + d)) :=
+    fun t ht => Nat.lt_of_lt_of_le (shl_lt hv _) (Nat.pow_le_pow_right (by omega) (by omega))
+  have hD : (a.getD (mw + d) 0) <<< (w * d)
+      ^^^ ((a.getD (mw + d) 0) <<< (w * d + 1)
+      ^^^ ((a.getD (mw + d) 0) <<< (w * d + 2) ^^^ (a.getD (mw + d) 0) <<< (w * d + 7)))
+      < 2 ^ (w * (mw + d)) := by
+    apply Nat.xor_lt_two_pow (hb 0 (by omega))
+    apply Nat.xor_lt_two_pow (hb 1 (by omega))
+    exact Nat.xor_lt_two_pow (hb 2 (by omega)) (hb 7 (by omega))
+  rw [val_take_xor h g1 g2 (mw + d) (by omega) hD g3, val_take_succ h (mw + d) hn]
+  refine ⟨(a.getD (mw + d) 0) <<< (w * d), ?_⟩
+  rw [← penta_fold (m := 128) (k := 7) (l := 2) (l1 := 1) (by omega) (by omega) (by omega) (by omega),
+    ← Nat.shiftLeft_add, ← Nat.shiftLeft_add, ← Nat.shiftLeft_add, ← Nat.shiftLeft_add]
+  have e1 : w * d + 128 = w * (mw + d) := by omega
+  rw [e1]
+  exact xor_cancel_mid _ _ _
+
+theorem beltLoop {w : Nat} (mw V0 L : Nat) (h7 : 7 < w) (hmw : 2 ≤ mw) (hw : w * mw = 128) :
+    ∀ (c : Nat) (a : List Nat), Wf w a → a.length = L → mw + c ≤ L →
+      Cong (2 ^ 128 + 2 ^ 7 + 2 ^ 2 + 2 ^ 1 + 1) (val w (a.take (mw + c))) V0 →
+      Wf w (redLoop (ppRedBeltBody w mw) (mw - 1) c a)
+      ∧ (redLoop (ppRedBeltBody w mw) (mw - 1) c a).length = L
+      ∧ Cong (2 ^ 128 + 2 ^ 7 + 2 ^ 2 + 2 ^ 1 + 1)
+          (val w ((redLoop (ppRedBeltBody w mw) (mw - 1) c a).take mw)) V0 := by
+  intro c
+  induction c with
+  | zero => intro a h hl _ hc; exact ⟨h, hl, hc⟩
+  | succ c ih =>
+    intro a h hL hle hc
+    have hn : mw + c < a.length := by omega
+    obtain ⟨g1, g2, _⟩ := beltBody_val a mw c h h7 (by omega) hn
+    have hs := beltStep a mw c h h7 hmw hw hn
+    rw [redLoop, show mw - 1 + c + 1 = mw + c by omega]
+    exact ih _ g1 (by omega) (by omega) (cong_trans hs hc)
+
+theorem ppRedBelt_ok {w : Nat} (a : List Nat) (h7 : 7 < w) (hmw : 2 ≤ wOfB w 128)
+    (hw : w * wOfB w 128 = 128) (ha : Wf w a) (hlen : a.length = 2 * wOfB w 128) :
+    val w (ppRedBelt w a) = pmod (val w a) (2 ^ 128 + 2 ^ 7 + 2 ^ 2 + 2 ^ 1 + 1)
+    ∧ val w (ppRedBelt w a) < 2 ^ 128
+    ∧ Wf w (ppRedBelt w a) ∧ (ppRedBelt w a).length = wOfB w 128 := by
+  obtain ⟨l1, l2, l3⟩ := beltLoop (wOfB w 128) (val w a) a.length h7 hmw hw (wOfB w 128) a ha rfl
+    (by omega) (by rw [show wOfB w 128 + wOfB w 128 = a.length by omega, List.take_length]; exact cong_refl _ _)
+  have hunf : ppRedBelt w a
+      = (redLoop (ppRedBeltBody w (wOfB w 128)) (wOfB w 128 - 1) (wOfB w 128) a).take (wOfB w 128) := rfl
+  rw [hunf]
+  have hP := pentaP_xor (m := 128) (k := 7) (l := 2) (l1 := 1) (by omega) (by omega) (by omega) (by omega)
+  have hP0 : 2 ^ 128 + 2 ^ 7 + 2 ^ 2 + 2 ^ 1 + 1 ≠ 0 := Nat.succ_ne_zero _
+  have hlt : val w ((redLoop (ppRedBeltBody w (wOfB w 128)) (wOfB w 128 - 1) (wOfB w 128) a).take
+      (wOfB w 128)) < 2 ^ 128 := by
+    have := val_lt (Wf_take l1 (wOfB w 128))
+    rwa [List.length_take, Nat.min_eq_left (by omega), hw] at this
+  have hpm := pmod_cong hP0 l3
+  rw [pmod_of_lt hP0 (by rw [hP.2]; exact hlt)] at hpm
+  refine ⟨hpm, hlt, Wf_take l1 _, ?_⟩
+  rw [List.length_take]; omega
+
 end Bee2V.C05.PpRed
